@@ -452,13 +452,15 @@ func (t *c41Tun) Close() error { return nil }
 // can keep parked, so that the gateway's global pool (a ring of pre-allocated
 // buffers) is never exhausted by the harness itself.
 type c41Pool struct {
-	mu   sync.Mutex
-	c    *sync.Cond
-	free int
+	mu    sync.Mutex
+	c     *sync.Cond
+	free  int
+	total int
 }
 
 func (p *c41Pool) acquire(n int) {
 	p.mu.Lock()
+	n = min(n, p.total)
 	for p.free < n {
 		p.c.Wait()
 	}
@@ -468,7 +470,7 @@ func (p *c41Pool) acquire(n int) {
 
 func (p *c41Pool) release(n int) {
 	p.mu.Lock()
-	p.free += n
+	p.free += min(n, p.total)
 	p.mu.Unlock()
 	p.c.Broadcast()
 }
@@ -949,7 +951,7 @@ func checkC41(r *mon.Run) {
 		"in the fault phase only integrity of emitted packets is demanded, not delivery, order or uniqueness",
 	}
 	dataplane.VerifInitFramePool()
-	cx := &c41Ctx{r: r, pool: &c41Pool{free: dataplane.VerifFreeFramesCap - 24}}
+	cx := &c41Ctx{r: r, pool: &c41Pool{free: dataplane.VerifFreeFramesCap - 24, total: dataplane.VerifFreeFramesCap - 24}}
 	cx.pool.c = sync.NewCond(&cx.pool.mu)
 
 	first, total := 0, r.Pick(1200, 30000)
